@@ -329,6 +329,7 @@ def check_curve(case, ctx):
 ENC_KINDS = [
     "valid", "prefix_byte", "x>=p", "x_off_curve", "wrong_y", "uncompressed_bad_prefix",
     "random33", "random65", "random32", "wrong_length", "xonly_zero", "y>=p", "hybrid",
+    "valid_x_in_n_p", "valid_small_x",
 ]
 
 
@@ -350,6 +351,21 @@ def check_enc(case, ctx):
     ctx.label("kind:" + kind)
     ctx.nontrivial()
     b32 = lambda v: v.to_bytes(32, "big")  # noqa
+    if kind in ("valid_x_in_n_p", "valid_small_x"):
+        # constructed: a curve point whose x lies in [n, p) (a window of ~2^128 values that no scalar
+        # multiple generated at random ever hits), or whose x is tiny; nobody knows its discrete log
+        x = (N + case["j"]) if kind == "valid_x_in_n_p" else 1 + case["j"] % 1000
+        step = 1
+        if case["prefix"] & 2 and kind == "valid_x_in_n_p":
+            x = P - 1 - case["j"]
+            step = -1  # walk down from the top of the field
+        A = None
+        while A is None:
+            A = ec.lift_x(x, odd=bool(case["prefix"] & 1))
+            if A is None:
+                x += step
+        assert kind == "valid_small_x" or N <= A[0] < P
+        kind = "valid"
     if kind == "valid":
         p = pt(A)
         require(p.sec(True) == ec.sec(A, True), "enc/sec_compressed")
